@@ -229,7 +229,7 @@ class C13(Prop):
             'schedules: quick = every schedule with <= 2 pre-emptions of 13 small base configurations + random / bursty / few-pre-emption schedules of random '
             'configurations; thorough adds every schedule with <= 2 pre-emptions for 2 workers x 2 tests, <= 1 for 3 workers, and every single fault position / interrupt position / make_tests failure position (<= 1 pre-emption), also for stock TestSuite partitions and for equal / identical / unhashable sub-suite objects. non-trivial = at least 2 workers started; '
             'distinct = distinct input S-expression')
-    assumptions = ['threading.Thread start/join, threading.Semaphore(1) and queue.Queue (unbounded FIFO) semantics are modelled (harness/sched.py doubles), not verified',
+    assumptions = ['threading.Thread start/join and queue.Queue (unbounded FIFO) semantics are modelled (harness/sched.py doubles), not verified; the semaphore of the suite flavour is a real threading.Semaphore(1), instrumented (see C12)',
                    'only operations on the shared queue / semaphore / caller\'s result and thread start/join are scheduling points; a new thread runs up to its first such operation when it is started',
                    'a KeyboardInterrupt delivered to the thread calling run() is modelled as an exception at a queue.get()',
                    'a run() that raises raises an Exception subclass (both _run_test methods say `except Exception`: a KeyboardInterrupt / SystemExit / GeneratorExit out of a sub-suite\'s run() '
@@ -267,7 +267,7 @@ class C13(Prop):
                 'differential check that runs the real suites in real threads under a deterministic scheduler (bounded-pre-emption exhaustive + random schedules, all fault kinds).',
         'note': 'partial by nature: the theorems cover every interleaving of the model\'s atomic steps (operations on queue / semaphore / caller\'s result, thread start/join); '
                 'CPython pre-emption is reached only through the scheduler-driven correspondence. trusted: Lean kernel, TTV/Model/Conc.lean + ConcSuite.lean, harness/sched.py '
-                'and the plug-in; Thread/Queue/Semaphore semantics modelled; KeyboardInterrupt modelled as an exception at queue.get(); traceback chunk count measured',
+                'and the plug-in; Thread/Queue semantics and the blocking of Semaphore.acquire modelled; KeyboardInterrupt modelled as an exception at queue.get(); traceback chunk count measured',
         'technique': 'Lean 4 invariant proofs over a small-step interleaving semantics (all schedules, no bound) with a termination measure, executable spec shared with a '
                      'differential correspondence check under a deterministic thread scheduler',
     }
